@@ -64,6 +64,8 @@ pub struct MonSink {
     doc: MonHandle,
     pub quiet: bool, // do not log elem_name / same_node / set_current_line (volume)
     last_line: Cell<u64>,
+    /// had_duplicate_attributes flag given at creation, by RcDom node address (RcDom does not keep it)
+    pub dups: RefCell<HashMap<usize, bool>>,
 }
 
 impl MonSink {
@@ -78,6 +80,7 @@ impl MonSink {
             doc,
             quiet,
             last_line: Cell::new(0),
+            dups: RefCell::new(HashMap::new()),
         }
     }
     fn ev(&self, v: Value) {
@@ -130,7 +133,9 @@ impl TreeSink for MonSink {
                        "attrs":attrs_json(&attrs),"template":flags.template,
                        "ip":flags.mathml_annotation_xml_integration_point,"dup":flags.had_duplicate_attributes});
         self.ev(j);
+        let dup = flags.had_duplicate_attributes;
         let h = self.inner.create_element(name, attrs, flags);
+        self.dups.borrow_mut().insert(Rc::as_ptr(&h) as usize, dup);
         self.fresh(h)
     }
     fn create_comment(&self, text: StrTendril) -> MonHandle {
@@ -291,7 +296,12 @@ impl TokenSink for Recorder {
         self.tb.end()
     }
     fn adjusted_current_node_present_but_not_in_html_namespace(&self) -> bool {
-        self.tb.adjusted_current_node_present_but_not_in_html_namespace()
+        let r = self.tb.adjusted_current_node_present_but_not_in_html_namespace();
+        if self.log_tokens {
+            self.tb.sink.log.borrow_mut().push(json!({"ev":"token","tok":{"k":"cdataq","ans":r},"line":0}));
+            self.tb.sink.log.borrow_mut().push(json!({"ev":"reply","r":"continue","x":[]}));
+        }
+        r
     }
 }
 
@@ -312,6 +322,23 @@ pub fn dump(h: &Handle) -> Value {
             json!({"k":"el","ns":ns_tag(&name.ns),"local":cps(&name.local),"attrs":attrs_json(&attrs.borrow()),"ch":ch(),"tmpl":t})
         },
         NodeData::ProcessingInstruction { target, contents } => json!({"k":"pi","target":cps(target),"data":cps(contents)}),
+    }
+}
+
+/// like `dump`, with the creation-time duplicate-attribute flag of every element (C02)
+pub fn dump_flags(h: &Handle, dups: &HashMap<usize, bool>) -> Value {
+    let ch = || Value::Array(h.children.borrow().iter().map(|c| dump_flags(c, dups)).collect());
+    match &h.data {
+        NodeData::Document => json!({"k":"doc","ch":ch()}),
+        NodeData::Element { name, attrs, template_contents, .. } => {
+            let t = match template_contents.borrow().as_ref() {
+                Some(tc) => json!([Value::Array(tc.children.borrow().iter().map(|c| dump_flags(c, dups)).collect())]),
+                None => json!([]),
+            };
+            let dup = dups.get(&(Rc::as_ptr(h) as usize)).copied().unwrap_or(false);
+            json!({"k":"el","ns":ns_tag(&name.ns),"local":cps(&name.local),"attrs":attrs_json(&attrs.borrow()),"ch":ch(),"tmpl":t,"dup":dup})
+        },
+        _ => dump(h),
     }
 }
 
@@ -346,6 +373,8 @@ pub struct ParseOut {
     pub panic: Option<String>,
     pub feeds: Vec<Value>,
     pub neof: usize,
+    pub tree_flags: Value,
+    pub istate: String,
 }
 
 /// case: {"mode":"doc"|"frag","ctx":{"ns","local"},"scripting":bool,"srcdoc":bool,"drop_doctype":bool,
@@ -377,6 +406,7 @@ pub fn run_parse(case: &Value) -> ParseOut {
         last_start_tag_name: None,
     };
     let mut panic = None;
+    let mut istate = String::from("none");
     let tb = if frag {
         let ns = ns_from_tag(case["ctx"]["ns"].as_str().unwrap_or("html"));
         let local = LocalName::from(&*from_cps(&case["ctx"]["local"]));
@@ -402,7 +432,9 @@ pub fn run_parse(case: &Value) -> ParseOut {
             None
         };
         let tb = TreeBuilder::new_for_fragment(sink, ctx, form, tbopts);
-        topts.initial_state = Some(tb.tokenizer_state_for_context_elem(scripting));
+        let st = tb.tokenizer_state_for_context_elem(scripting);
+        istate = format!("{:?}", st);
+        topts.initial_state = Some(st);
         tb
     } else {
         TreeBuilder::new(sink, tbopts)
@@ -456,5 +488,66 @@ pub fn run_parse(case: &Value) -> ParseOut {
     };
     let parents_ok = if want_tree && panic.is_none() { parents_consistent(&sink.inner.document) } else { true };
     let neof = events.iter().filter(|e| e["ev"] == "token" && e["tok"]["k"] == "eof").count();
-    ParseOut { events, tree, quirks, parents_ok, panic, feeds, neof }
+    let tree_flags = if want_tree && panic.is_none() { dump_flags(&sink.inner.document, &sink.dups.borrow()) } else { json!({"k":"none"}) };
+    ParseOut { events, tree, quirks, parents_ok, panic, feeds, neof, tree_flags, istate }
+}
+
+/// Drive the tree builder directly with a token sequence (no tokenizer): the spec -> implementation
+/// direction of C02.  case: {"mode","ctx":{"ns","local"},"scripting", "toks":[token json as logged]}
+pub fn run_tokens(case: &Value) -> ParseOut {
+    use html5ever::tokenizer::{Doctype, Tag, TagKind};
+    let scripting = case["scripting"].as_bool().unwrap_or(true);
+    let tbopts = TreeBuilderOpts { scripting_enabled: scripting, ..Default::default() };
+    let sink = MonSink::new(true);
+    let mut istate = String::from("none");
+    let tb = if case["mode"] == "frag" {
+        let ns = ns_from_tag(case["ctx"]["ns"].as_str().unwrap_or("html"));
+        let local = LocalName::from(&*from_cps(&case["ctx"]["local"]));
+        let ctx = html5ever::tree_builder::create_element(&sink, QualName::new(None, ns, local), vec![]);
+        sink.ev(json!({"ev":"context","id":ctx.id}));
+        let tb = TreeBuilder::new_for_fragment(sink, ctx, None, tbopts);
+        istate = format!("{:?}", tb.tokenizer_state_for_context_elem(scripting));
+        tb
+    } else {
+        TreeBuilder::new(sink, tbopts)
+    };
+    let rec = Recorder { tb, log_tokens: true };
+    let opt = |v: &Value| -> Option<StrTendril> { v.as_array().and_then(|a| a.first()).map(|x| StrTendril::from_slice(&from_cps(x))) };
+    let r = catch(|| {
+        for t in case["toks"].as_array().unwrap() {
+            let tok = match t["k"].as_str().unwrap() {
+                "start" | "end" => Token::TagToken(Tag {
+                    kind: if t["k"] == "start" { TagKind::StartTag } else { TagKind::EndTag },
+                    name: LocalName::from(&*from_cps(&t["name"])),
+                    self_closing: t["sc"].as_bool().unwrap_or(false),
+                    attrs: t["attrs"].as_array().map(|a| a.iter().map(|x| Attribute {
+                        name: QualName::new(None, Namespace::from(""), LocalName::from(&*from_cps(&x["n"]))),
+                        value: StrTendril::from_slice(&from_cps(&x["v"])),
+                    }).collect()).unwrap_or_default(),
+                    had_duplicate_attributes: t["dup"].as_bool().unwrap_or(false),
+                }),
+                "chars" => Token::CharacterTokens(StrTendril::from_slice(&from_cps(&t["s"]))),
+                "comment" => Token::CommentToken(StrTendril::from_slice(&from_cps(&t["s"]))),
+                "nul" => Token::NullCharacterToken,
+                "eof" => Token::EOFToken,
+                "doctype" => Token::DoctypeToken(Doctype { name: opt(&t["name"]), public_id: opt(&t["pub"]), system_id: opt(&t["sys"]),
+                                                           force_quirks: t["fq"].as_bool().unwrap_or(false) }),
+                other => panic!("bad token kind {}", other),
+            };
+            let _ = rec.process_token(tok, 1);
+        }
+        rec.end();
+    });
+    let panic = r.err();
+    let sink = &rec.tb.sink;
+    let events = sink.log.replace(Vec::new());
+    let tree = if panic.is_none() { dump(&sink.inner.document) } else { json!({"k":"none"}) };
+    let tree_flags = if panic.is_none() { dump_flags(&sink.inner.document, &sink.dups.borrow()) } else { json!({"k":"none"}) };
+    let quirks = match sink.inner.quirks_mode.get() {
+        QuirksMode::Quirks => "full",
+        QuirksMode::LimitedQuirks => "limited",
+        QuirksMode::NoQuirks => "no",
+    };
+    let neof = events.iter().filter(|e| e["ev"] == "token" && e["tok"]["k"] == "eof").count();
+    ParseOut { events, tree, quirks, parents_ok: true, panic, feeds: Vec::new(), neof, tree_flags, istate }
 }
